@@ -2530,6 +2530,18 @@ impl<T: PPGEvaluatorStrategy> PPGEvaluator<T> {
                             //continue;
                         }
                     }
+                    JobState::Ephemeral(_) if !self.history.contains_key(&job.job_id) => {
+                        // no record of a successful execution (new, or failed/aborted last time):
+                        // the edge records of its consumers can not vouch for it.
+                        Self::set_upstream_edges(&mut self.dag, node_idx, Required::Yes);
+                        set_node_state!(
+                            job,
+                            JobState::Ephemeral(JobStateEphemeral::NotReady(
+                                ValidationStatus::Invalidated,
+                            )),
+                            self.gen
+                        );
+                    }
                     JobState::Ephemeral(_) => {
                         //we're going reverse topological, so at this point,
                         //all downstreams have declared whether they're required or not.
